@@ -80,9 +80,16 @@ def check_tie_anchor(case, ctx):
 
 @st.composite
 def enc_cases(draw):
-    g = draw(gen.games(options=True, enc_kinds=["int"]))
+    tiny = draw(st.integers(0, 3)) == 0
+    if tiny:
+        # small games with small integer ranks / scores (what users actually pass: scores [1, 2], [1, 1], ranks [-1, 0] ...):
+        # the same few value tuples recur across cases of one process, next to tuples that differ only in their tie structure
+        g = draw(gen.games(options=False, enc_kinds=["int"], max_teams=3, max_size=2, cfg_kw={"scales": False, "gammas": ["default"]}))
+        kinds = ["small_ints", "small_ints", "scores_small", "scores_small", "mixed"]
+    else:
+        g = draw(gen.games(options=True, enc_kinds=["int"]))
+        kinds = ["int_relabel", "float", "mixed", "bool", "huge", "zero_neg", "small_ints", "close", "close", "scores", "scores_small", "scores_float", "omitted"]
     classes = g["classes"]
-    kinds = ["int_relabel", "float", "mixed", "bool", "huge", "zero_neg", "scores", "scores_float", "omitted"]
     encs = []
     k = draw(st.integers(3, 5))
     for _ in range(k):
